@@ -534,7 +534,7 @@ AWKWARD_BOOL = ["a b", "a;b", 'q"t', "a#b", "#", "1x", "Int", "Real", ".def_0", 
 AWKWARD_INT = ["i j", "2i", ".def_2", "Bool"]
 
 
-from .c07 import fnames_profile  # noqa: E402
+from .c07 import fnames_profile, letbinder_profile  # noqa: E402
 
 
 def names_profile(env, with_parens=True):
@@ -701,6 +701,9 @@ def parts(ctx):
         A(name="qorder-d3", profile=qorder_profile, depth=3, shards=64, dom={INT: (0, 1)},
           mid_ops=_names("and", "le", "not", "forall_yx", "exists_xa", "exists_x", "forall_ba"), max_new=1)
     # ---- names needing quoting, let-name clashes; custom sorts
+    A(name="letbinder-d3", profile=letbinder_profile, depth=3, shards=16, dom={INT: (0, 1)},
+      mid_ops=lambda o: o.name in ("not", "and", "or", "le", "plus"),
+      top_ops=lambda o: o.name.startswith(("forall", "exists")))
     A(name="fnames-d3", profile=fnames_profile, depth=3, shards=8, dom={INT: (0, 1)},
       top_ops=lambda o: o.name == "dup")
     A(name="names-d2", profile=names_profile, depth=2, shards=8 if q else 32, dom={INT: (0, 1)},
